@@ -1372,7 +1372,7 @@ pub fn check_teardown(nq: usize, ndma: usize) {
 pub fn check_failed_new(e: Error) {
     assert!(e == Error::DmaError, "C09: DMA exhaustion must be reported as DmaError");
     assert!(dma_live_count() == 0, "C09: DMA region leaked by a failed construction");
-    assert!(ev_find(EV_SET_STATUS, Some(15), 0).is_none(), "C08: DRIVER_OK set by a failed construction");
+    assert!(ev_find(EV_SET_STATUS, Some(15), 0).is_none(), "C08/C09: DRIVER_OK set by a failed construction (the device is live while the memory of its queues is released)");
 }
 
 /// word-sized device accesses (one unaligned load/store instead of four byte accesses)
